@@ -49,6 +49,42 @@ def check_za(cx):
         cx.violate('G-ZA-ENTL', 'compute_za', 'no check that 8*len(id) fits in 16 bits before the u16 cast', fn.loc())
 
 
+def check_za_id(cx, qual, inst):
+    """F-ZA-ID: the ID that reaches compute_za is the caller's `id` whenever one was given: Some(x) -> x with nothing
+    in between (a filter/map on the option would substitute or alter a legal ID, e.g. the empty one), None -> DEFAULT_ID"""
+    fn = cx.fn(qual, 'F-ZA-ID')
+    if fn is None:
+        return
+    P = Prov(fn, cx.F); cn = Canon(fn, P)
+    cbs = FR.calls_of(fn, 'util::compute_za')
+    if not cbs:
+        cx.lost('F-ZA-ID', inst, 'no compute_za call in %s' % fn.short, fn.loc())
+        return
+    for b in cbs:
+        a = strip(G.call_args(fn, P, b)[0])
+        ok, how = False, cn.c(a)
+        if a.k == 'param' and a.name == 'id':
+            ok = True
+        elif a.k == 'call' and last(a.name) in ('unwrap_or', 'unwrap_or_else', 'unwrap_or_default', 'unwrap', 'expect') and a.args:
+            src = strip(a.args[0])
+            dflt_ok = True
+            if last(a.name) == 'unwrap_or' and len(a.args) > 1:
+                dflt_ok = cn.c(a.args[1]) in ('DEFAULT_ID', '"1234567812345678"') or 'DEFAULT_ID' in cn.c(a.args[1])
+            if last(a.name) == 'unwrap_or_else' and len(a.args) > 1:
+                c = strip(a.args[1])
+                cl = cx.F.fns.get((c.c or {}).get('closure')) if c.k == 'aggr' else None
+                if cl is None:
+                    dflt_ok = False
+                    how += ' (closure body not found)'
+                else:
+                    PC = Prov(cl, cx.F); cc = Canon(cl, PC)
+                    rr = [cc.c(norm(PC.rvalue(st['rv'], b_, i_, 0))) for b_, i_, st in cl.stmts() if st['k'] == 'assign' and st['lhs']['l'] == 0 and not st['lhs']['p']]
+                    dflt_ok = bool(rr) and all('DEFAULT_ID' in x or '1234567812345678' in x for x in rr)
+                    how += ' with closure -> %s' % rr
+            ok = src.k == 'param' and src.name == 'id' and dflt_ok
+        cx.add('F-ZA-ID', inst, ok, 'ID handed to compute_za in %s: %s (the caller\'s id unchanged when given, DEFAULT_ID otherwise)' % (fn.short, how), G.where(fn, b))
+
+
 def run(cx):
     cx.not_decided.append('acceptance by independent verifiers and exact (r,s) for a fixed nonce (functional: scalar multiplication and mod-n arithmetic)')
     n = pa.sm2().n
@@ -113,4 +149,5 @@ _run0 = run
 def run(cx):
     from .. import rules_s as S
     _run0(cx)
+    check_za_id(cx, '<impl key::Sm2PrivateKey>::sign', 'sign')
     S.s_siblings(cx, 'S-SIBLING', only=('mod-add', 'modn-sub', 'mont-mul', 'to-mont', 'from-mont', 'limb-add', 'limb-sub', 'limb-cmp', 'limb-mul'))
